@@ -33,6 +33,8 @@
 (*                  again once all are left                                 *)
 (*   DisabledInert  a disabled object never changes sys.stdout and records  *)
 (*                  nothing (text stays None)                               *)
+(*   NeverSwallows  leaving with an exception on its way out (Exit(c, TRUE)) *)
+(*                  changes the state like any leave and returns falsey     *)
 (***************************************************************************)
 EXTENDS Integers, Sequences, TLC
 
@@ -51,8 +53,9 @@ VARIABLES sysout,     \* "base" | "cap1" | "cap2"
           seen,       \* ghost: tokens printed since the last Enter of c while c was entered and nothing entered inside it suppressed
           hidden,     \* ghost: tokens printed while some entered object suppresses
           wellUsed,   \* ghost: every object was entered while sys.stdout named the stream it was constructed under
+          ret,        \* what the last __exit__ returned, as a truth value: TRUE would swallow the exception leaving the `with`
           ops, hist, tok
-vars == <<sysout, made, suppress, enabled, orig, buf, pos, parts, text, started, base, stack, seen, hidden, wellUsed, ops, hist, tok>>
+vars == <<sysout, made, suppress, enabled, orig, buf, pos, parts, text, started, base, stack, seen, hidden, wellUsed, ret, ops, hist, tok>>
 
 StreamOf(c) == IF c = 1 THEN "cap1" ELSE "cap2"
 CapOf(s) == IF s = "cap1" THEN 1 ELSE 2
@@ -64,7 +67,7 @@ Init ==
   /\ buf = [c \in Caps |-> <<>>] /\ pos = [c \in Caps |-> 0] /\ parts = [c \in Caps |-> <<>>]
   /\ text = [c \in Caps |-> None] /\ started = [c \in Caps |-> FALSE]
   /\ base = <<>> /\ stack = <<>> /\ seen = [c \in Caps |-> <<>>] /\ hidden = {} /\ wellUsed = TRUE
-  /\ ops = <<>> /\ hist = <<>> /\ tok = 0
+  /\ ops = <<>> /\ hist = <<>> /\ tok = 0 /\ ret = FALSE
 
 \* the streams a write to stream s reaches: s itself and, through the redirects, the streams below it
 RECURSIVE Chain(_, _)
@@ -74,14 +77,14 @@ Chain(s, fuel) ==
        IF suppress[c] /\ "TeeWhenSuppressed" \notin Deviation THEN <<s>> ELSE <<s>> \o Chain(orig[c], fuel - 1)
 Reached(s) == LET ch == Chain(s, 3) IN {ch[i] : i \in 1..Len(ch)}
 
-Proj == [out |-> sysout, t1 |-> text[1], t2 |-> text[2], n1 |-> Len(parts[1]), n2 |-> Len(parts[2]), base |-> base]
+Proj == [out |-> sysout, t1 |-> text[1], t2 |-> text[2], n1 |-> Len(parts[1]), n2 |-> Len(parts[2]), base |-> base, sw |-> ret]
 Log(op) == ops' = Append(ops, op)
 
 New(c) ==
   /\ ~made[c] /\ made' = [made EXCEPT ![c] = TRUE]
   /\ orig' = [orig EXCEPT ![c] = sysout]
   /\ Log(<<"new", c>>)
-  /\ UNCHANGED <<sysout, suppress, enabled, buf, pos, parts, text, started, base, stack, seen, hidden, wellUsed, tok>>
+  /\ UNCHANGED <<sysout, suppress, enabled, buf, pos, parts, text, started, base, stack, seen, hidden, wellUsed, tok, ret>>
 
 Enter(c) ==
   /\ made[c] /\ ~started[c]
@@ -91,7 +94,7 @@ Enter(c) ==
           /\ wellUsed' = (wellUsed /\ sysout = orig[c])
      ELSE UNCHANGED <<sysout, text, started, stack, seen, wellUsed>>
   /\ Log(<<"enter", c>>)
-  /\ UNCHANGED <<made, suppress, enabled, orig, buf, pos, parts, base, hidden, tok>>
+  /\ UNCHANGED <<made, suppress, enabled, orig, buf, pos, parts, base, hidden, tok, ret>>
 
 Write ==
   /\ tok' = tok + 1
@@ -102,10 +105,11 @@ Write ==
                                THEN Append(seen[c], tok') ELSE seen[c]]
   /\ hidden' = IF \E i \in 1..Len(stack) : suppress[stack[i]] THEN hidden \cup {tok'} ELSE hidden
   /\ Log(<<"print", tok'>>)
-  /\ UNCHANGED <<sysout, made, suppress, enabled, orig, pos, parts, text, started, stack, wellUsed>>
+  /\ UNCHANGED <<sysout, made, suppress, enabled, orig, pos, parts, text, started, stack, wellUsed, ret>>
 
-\* __exit__: log_part, then stop
-Exit(c) ==
+\* __exit__: log_part, then stop; exc = an exception is on its way out of the `with` block (DocTest.run leaves `with cap:` that way
+\* whenever a part raises): the state changes are the same and the return value is falsey, so the exception goes on
+Exit(c, exc) ==
   /\ made[c] /\ (started[c] \/ ~enabled[c])
   /\ IF enabled[c]
      THEN LET piece == SubSeq(buf[c], pos[c] + 1, Len(buf[c]))
@@ -118,28 +122,31 @@ Exit(c) ==
           /\ sysout' = IF "RestoreOnlyIfOurs" \in Deviation /\ sysout # StreamOf(c) THEN sysout ELSE orig[c]
           /\ stack' = SelectSeq(stack, LAMBDA x : x # c)
      ELSE UNCHANGED <<parts, text, pos, started, sysout, stack>>
-  /\ Log(<<"exit", c>>)
+  /\ Log(<<IF exc THEN "exitx" ELSE "exit", c>>)
+  \* deviation: a suppressing object also suppresses the exception
+  /\ ret' = (exc /\ enabled[c] /\ suppress[c] /\ "SwallowWhenSuppressed" \in Deviation)
   /\ UNCHANGED <<made, suppress, enabled, orig, buf, base, seen, hidden, wellUsed, tok>>
 
-Step == (\E c \in Caps : New(c) \/ Enter(c) \/ Exit(c)) \/ Write
+Step == (\E c \in Caps : New(c) \/ Enter(c) \/ Exit(c, FALSE) \/ Exit(c, TRUE)) \/ Write
 
 Next ==
   \/ /\ Len(ops) < MaxOps /\ Step /\ hist' = Append(hist, Proj')
   \/ /\ Len(ops) = MaxOps /\ Len(hist) = MaxOps
      /\ IF "Emit" \in Deviation THEN PrintT("XDV " \o ToString(<<suppress, enabled, ops, hist>>)) ELSE TRUE
-     /\ hist' = Append(hist, Proj) /\ UNCHANGED <<sysout, made, suppress, enabled, orig, buf, pos, parts, text, started, base, stack, seen, hidden, wellUsed, ops, tok>>
+     /\ hist' = Append(hist, Proj) /\ UNCHANGED <<sysout, made, suppress, enabled, orig, buf, pos, parts, text, started, base, stack, seen, hidden, wellUsed, ops, tok, ret>>
 
 Spec == Init /\ [][Next]_vars
 
 -----------------------------------------------------------------------------
 \* the last step was the Exit of an enabled object c
-JustExited(c) == Len(ops) > 0 /\ ops[Len(ops)] = <<"exit", c>> /\ enabled[c] /\ Len(hist) = Len(ops)
+IsExit(o, c) == o = <<"exit", c>> \/ o = <<"exitx", c>>
+JustExited(c) == Len(ops) > 0 /\ IsExit(ops[Len(ops)], c) /\ enabled[c] /\ Len(hist) = Len(ops)
 
 LIFO == \* the objects were left in the reverse order of entering so far: every exit concerned the innermost entered object
-  \A i \in 1..Len(ops) : ops[i][1] = "exit" =>
+  \A i \in 1..Len(ops) : ops[i][1] \in {"exit", "exitx"} =>
      LET c == ops[i][2]
          \* objects entered before i and not left before i
-         open == {d \in Caps : enabled[d] /\ \E j \in 1..(i - 1) : ops[j] = <<"enter", d>> /\ \A k \in (j + 1)..(i - 1) : ops[k] # <<"exit", d>>}
+         open == {d \in Caps : enabled[d] /\ \E j \in 1..(i - 1) : ops[j] = <<"enter", d>> /\ \A k \in (j + 1)..(i - 1) : ~IsExit(ops[k], d)}
          lastEnter(d) == CHOOSE j \in 1..(i - 1) : ops[j] = <<"enter", d>> /\ \A k \in (j + 1)..(i - 1) : ops[k] # <<"enter", d>>
      IN enabled[c] => \A d \in open \ {c} : lastEnter(d) < lastEnter(c)
 \* an object puts back the stream it saw when it was CONSTRUCTED, not the one it replaced when it was entered: the promises
@@ -154,4 +161,6 @@ SuppressHides == (LIFO /\ wellUsed) => \A t \in 1..tok : t \in hidden <=> ~InBas
 TeeShows == (\A c \in Caps : ~suppress[c]) => base = [i \in 1..tok |-> i]
 RestoredLIFO == (LIFO /\ wellUsed /\ stack = <<>>) => sysout = "base"
 DisabledInert == \A c \in Caps : ~enabled[c] => (text[c] = None /\ parts[c] = <<>> /\ ~started[c] /\ sysout # StreamOf(c))
+\* leaving never swallows: whatever was raised inside the `with` block is still on its way out afterwards
+NeverSwallows == ret = FALSE
 =============================================================================
